@@ -706,6 +706,13 @@ class StmtMixin:
             if fn.kind == "ast":
                 c = self.world.contract_for(fn)
                 root = self.frames[0].get("contract") if self.frames else None
+                # contracts that hold only while one particular function is verified (e.g. an assumed summary of a helper whose
+                # real contract is stated over another model of its argument): declared on the root contract, listed as assumed
+                local = getattr(root, "local_contracts", None)
+                if local:
+                    lc_ = local.get(f"{fn.module.name}:{getattr(fn, 'qual', fn.name)}")
+                    if lc_ is not None:
+                        c = lc_
                 inl = c is not None and (c.inline or (root is not None and root.inline_callees and not c.assumed and c is not root))
                 if c is not None and not inl:
                     return self.force(self.world.apply_contract(self, c, args, kwargs, fn))
